@@ -165,6 +165,25 @@ def probe(seed):
                 except BaseException as e: got = "exc:" + type(e).__name__
                 want = "ok" if x < l else {"x": x, "limit": l}
                 if got != want: bad.append([short, limits, l, x, got if isinstance(got, str) else sorted(got.items()), want if isinstance(want, str) else sorted(want.items())])
+    # a marker contract that reaches a method through deal.inherit raises what was configured: type, text, message
+    for exc, msg, want in ((ValueError("instance text"), None, ("ValueError", ("instance text",))),
+                           (deal.SilentContractError("silent text"), None, ("SilentContractError", "silent text")),
+                           (KeyError, "configured message", ("KeyError", ("configured message",))),
+                           (None, "configured message", ("SilentContractError", "configured message"))):
+        kw = {}
+        if exc is not None: kw["exception"] = exc
+        if msg is not None: kw["message"] = msg
+        class Base:
+            @deal.has(**kw)
+            def m(self): print("x")
+        class Child(Base):
+            @deal.inherit
+            def m(self): print("x")
+        for label, obj in (("direct", Base()), ("inherited", Child())):
+            try: obj.m(); got = "no error"
+            except deal.ContractError as e: got = (type(e).__name__, e.message)
+            except BaseException as e: got = (type(e).__name__, e.args)
+            if got != want: bad.append(["has through " + label, repr(exc), msg, list(got) if isinstance(got, tuple) else got, list(want)])
     return bad
 """
 
